@@ -51,9 +51,10 @@ def removeManyFrom {β : Type} (idx : List Nat) : Nat → List β → List β
   | k, x :: xs => if idx.contains k then removeManyFrom idx (k+1) xs else x :: removeManyFrom idx (k+1) xs
 def removeMany {β : Type} (l : List β) (idx : List Nat) : List β := removeManyFrom idx 0 l
 
-/-- `EqualityConstraint::new`: rows with a (tolerance-)negative right-hand side are negated. -/
-def eqNew (tol : α) (coeffs : List α) (rhs : α) : StdRow α :=
-  if Tol.flt tol rhs zero then { coeffs := coeffs.map (fun c => mul c (ofInt (-1))), rhs := neg rhs }
+/-- `EqualityConstraint::new`: rows with a negative right-hand side are negated (EXACT sign test `rhs < 0.0`
+since /repo 947e0f0; before, the tolerant `float_lt` left right-hand sides in `(-1e-5, 0)` negative). -/
+def eqNew (coeffs : List α) (rhs : α) : StdRow α :=
+  if lt rhs zero then { coeffs := coeffs.map (fun c => mul c (ofInt (-1))), rhs := neg rhs }
   else { coeffs := coeffs, rhs := rhs }
 
 def isContinuous : VarType α → Bool
@@ -120,28 +121,28 @@ def mapM' {β γ : Type} (f : β → Option γ) : List β → Option (List γ)
 
 /-- `normalize_constraint` over all rows: state = `total_variables`, slack and surplus counters.
 Returns the rows and the names of the added columns in order. -/
-def normalizeAll (tol : α) : Nat → Nat → Nat → List (LinRow α) → Except StdErr (List (StdRow α) × List String × Nat)
+def normalizeAll : Nat → Nat → Nat → List (LinRow α) → Except StdErr (List (StdRow α) × List String × Nat)
   | total, _, _, [] => .ok ([], [], total)
   | total, sl, su, r :: rs =>
     match r.cmp with
     | .eq =>
-      match normalizeAll tol total sl su rs with
-      | .ok (rows, names, t) => .ok (eqNew tol r.coeffs r.rhs :: rows, names, t)
+      match normalizeAll total sl su rs with
+      | .ok (rows, names, t) => .ok (eqNew r.coeffs r.rhs :: rows, names, t)
       | .error e => .error e
     | .le =>
-      let row := eqNew tol (resize r.coeffs total zero ++ [one]) r.rhs
-      match normalizeAll tol (total+1) (sl+1) su rs with
+      let row := eqNew (resize r.coeffs total zero ++ [one]) r.rhs
+      match normalizeAll (total+1) (sl+1) su rs with
       | .ok (rows, names, t) => .ok (row :: rows, ("$sl_" ++ toString (sl+1)) :: names, t)
       | .error e => .error e
     | .ge =>
-      let row := eqNew tol (resize r.coeffs total zero ++ [ofInt (-1)]) r.rhs
-      match normalizeAll tol (total+1) sl (su+1) rs with
+      let row := eqNew (resize r.coeffs total zero ++ [ofInt (-1)]) r.rhs
+      match normalizeAll (total+1) sl (su+1) rs with
       | .ok (rows, names, t) => .ok (row :: rows, ("$su_" ++ toString (su+1)) :: names, t)
       | .error e => .error e
     | _ => .error .unavailableComparison
 
 /-- `to_standard_form`. -/
-def standardize (tol : α) (lm : LinModel α) : Except StdErr (StdModel α) :=
+def standardize (lm : LinModel α) : Except StdErr (StdModel α) :=
   if lm.domain.any (fun d => !(isContinuous d.ty)) then .error .invalidDomain else
   let n := lm.vars.length
   match allBoundRows lm.domain n 0 lm.vars, freeIdx lm.domain 0 lm.vars with
@@ -153,7 +154,7 @@ def standardize (tol : α) (lm : LinModel α) : Except StdErr (StdModel α) :=
     | some rows, some obj =>
       let obj := removeMany obj free
       let vars := removeMany (lm.vars ++ free.flatMap (fun i => let v := lm.vars.getD i ""; ["$p" ++ v, "$m" ++ v])) free
-      match normalizeAll tol (n + free.length) 0 0 rows with
+      match normalizeAll (n + free.length) 0 0 rows with
       | .error e => .error e
       | .ok (srows, names, total) =>
         let vars := vars ++ names
